@@ -119,6 +119,10 @@ NS = {4: {1: (3,), 2: (3, 2), 3: (2, 1, 2)}, 5: {1: (4,), 2: (2, 3), 3: (1, 2, 2
 PTS_CONC = 8     # grid points of the real default grid used by float replays
 
 
+class HarnessError(BaseException):
+    """A limitation of this check (not of dadi): reported as inconclusive, never as a violation."""
+
+
 # ---------------------------------------------------------------------------------------------
 # discovery
 def discover():
@@ -154,7 +158,7 @@ def model_dim(f, depth=0):
     """Number of populations of the returned spectrum, from the source: the grids tuple handed to from_phi, following
     `return other_model(...)` delegation."""
     src = inspect.getsource(f)
-    m = re.search(r'from_phi\w*\(\s*phi\s*,\s*ns\s*,\s*\(([^)]*)\)', src)
+    m = re.search(r'from_phi\w*\(\s*phi\s*,[^,()]*(?:\[[^\]]*\])?[^,()]*,\s*\(([^)]*)\)', src)
     if m:
         return len([x for x in m.group(1).split(',') if x.strip()])
     mod = sys.modules[f.__module__]
@@ -162,7 +166,7 @@ def model_dim(f, depth=0):
         g = getattr(mod, name, None)
         if g is not None and hasattr(g, '__param_names__') and depth < 4:
             return model_dim(g, depth + 1)
-    raise ValueError('cannot determine the dimension of %s' % f.__name__)
+    raise HarnessError('cannot determine the dimension of %s' % f.__name__)
 
 
 def kind(name):
@@ -245,9 +249,11 @@ def _install_sym():
         if key not in CTX['dts']:
             d = S.R('DT%d' % len(CTX['dts']))
             CTX['dts'][key] = (T, d)      # keeps the term alive: its id stays unique
-            # conditional on T > 0 so that the fact is satisfiable for every parameter value (it is kept as a unit-wide
-            # precondition: an unconditional dt < T would make the zero-length-epoch paths infeasible)
-            _axiom(z3.Implies(T.t > 0, z3.And(d.t > 0, d.t < T.t, T.t < 2 * d.t)))
+            # exactly k steps: (k-1) dt < T < k dt.  Conditional on T > 0 so that the fact is satisfiable for every
+            # parameter value (it is kept as a unit-wide precondition: an unconditional dt < T would make the
+            # zero-length-epoch paths infeasible)
+            k = CTX['steps']
+            _axiom(z3.Implies(T.t > 0, z3.And(d.t > 0, (k - 1) * d.t < T.t, T.t < k * d.t)))
         return CTX['dts'][key][1]
     shims.set_attr(Integration, '_compute_dt', dt_stub)
 
@@ -784,10 +790,14 @@ def units(tier, seed):
     models = discover()
     names = sorted(n for n, f in models.items() if is_model(f) and not n.endswith('_mscore'))
     us = []
-    configs = [(4, 1)] + ([(5, 2)] if thorough else [])
-    for L, steps in configs:
-        for n in names:
-            us.append(wellformed_unit(n, L, steps))
+    # (grid points, implicit steps per epoch, with the well-formedness units?)
+    configs = [(4, 1, True), (4, 2, False)]
+    if thorough:
+        configs = [(4, 1, True), (4, 2, True), (5, 1, True), (5, 2, True), (4, 3, False)]
+    for L, steps, wf in configs:
+        if wf:
+            for n in names:
+                us.append(wellformed_unit(n, L, steps))
         for i in range(len(NEST)):
             us.append(nest_unit(i, L, steps))
     # every model of the nesting table must exist (a renamed / removed model must not silently drop a pair)
